@@ -413,7 +413,7 @@ def gen_cases(rng, tier):
     else:
         for c in fam:
             yield c
-        n = 5000
+        n = 12000
     for _ in range(n):
         yield _random_case(rng, tier)
     yield {"ops": [], "raw": ["foo", "imap dict a>b a>c", "assign in", "add n0 in a:x out", "imap", "run",
@@ -755,7 +755,7 @@ def model_input(case, impl=None):
                 lines.append("q kw " + " ".join(f"{k}={tok(v)}" for k, v in op[1].items()))
             # what the run did to the values is C01's subject: observed, fed
             for c, v in enumerate(st["vals"]):
-                if prev_vals is None or c >= len(prev_vals) or prev_vals[c] != v:
+                if op[1] or prev_vals is None or c >= len(prev_vals) or prev_vals[c] != v:
                     lines.append(f"q val {c} {v}")
             lines.append(f"run {res}")
         elif what == "replace" and st["info"].get("exc"):
